@@ -1,6 +1,8 @@
 package main
 
 import (
+	"runtime/debug"
+	"runtime/pprof"
 	"encoding/json"
 	"flag"
 	"fmt"
@@ -18,11 +20,25 @@ func main() {
 		os.Exit(2)
 	}
 	defer cleanupScratch()
+	if os.Getenv("GOGC") == "" {
+		// the term graph is large and long-lived while script printing produces much short-lived garbage: collecting
+		// less often cuts the run time by more than half
+		debug.SetGCPercent(400)
+	}
+	if pf := os.Getenv("GOVC_CPUPROFILE"); pf != "" {
+		if f, err := os.Create(pf); err == nil {
+			pprof.StartCPUProfile(f)
+			defer pprof.StopCPUProfile()
+		}
+	}
 	switch os.Args[1] {
 	case "func":
 		cmdFunc(os.Args[2:])
 	case "check":
-		os.Exit(cmdCheck(os.Args[2:]))
+		rc := cmdCheck(os.Args[2:])
+		pprof.StopCPUProfile()
+		cleanupScratch()
+		os.Exit(rc)
 	case "list":
 		cmdList(os.Args[2:])
 	case "replay":
